@@ -217,7 +217,7 @@ def pairsetup_family(run, replay=None):
     else:
         run.model_check('PairSetup', 'PairSetup_MC.cfg', workers=8)
         edge = dedupe_prefixes(run.generate('PairSetupGen', cfgtext=ps_cfg(["c1"], ["a"], PS_ALL, tail=gen_tail + 'INVARIANT EmitEdge\nVIEW EdgeView')))
-        edge2 = dedupe_prefixes(run.generate('PairSetupGen', cfgtext=ps_cfg(["c1", "c2"], ["a", "b"], PS_CORE, tail=gen_tail + 'INVARIANT EmitEdge\nVIEW EdgeView')))
+        edge2 = dedupe_prefixes(run.generate('PairSetupGen', cfgtext=ps_cfg(["c1", "c2"], ["a", "b"] if thorough else ["a"], PS_CORE, tail=gen_tail + 'INVARIANT EmitEdge\nVIEW EdgeView'), timeout=1800))
         nedge2 = len(edge2)
         if not thorough:
             edge2 = sample(edge2, 4000, run.seed)
@@ -465,7 +465,7 @@ def notify_gen(run):
     thorough = run.tier == 'thorough'
     run.model_check('Notify', 'Notify_MC.cfg', workers=8)
     t = 'INIT HInit\nNEXT HNext\n'
-    edge = dedupe_prefixes(run.generate('NotifyGen', cfgtext=nt_cfg(["c1", "c2", "c3"], ["x", "y", "z"], tail=t + 'INVARIANT EmitEdge\nVIEW EdgeView'), timeout=1200))
+    edge = dedupe_prefixes(run.generate('NotifyGen', cfgtext=nt_cfg(["c1", "c2", "c3"], ["x", "y", "z"] if thorough else ["x", "z"], tail=t + 'INVARIANT EmitEdge\nVIEW EdgeView'), timeout=1800))
     nedge = len(edge)
     if not thorough:
         edge = sample(edge, 4000, run.seed)
